@@ -73,7 +73,7 @@ func g8RunC40Block(f []string) string {
 		for _, t := range c40Tampers {
 			okT = okT || t == kind
 		}
-		if !okT || (!tpraos && (kind == "nonceProof" || kind == "nonceOut")) {
+		if !okT || (!tpraos && g8TpraosOnly(kind)) {
 			return "bad-op"
 		}
 	default:
@@ -184,7 +184,10 @@ func g8RunC40Block(f []string) string {
 		o := &c40Kes{data: u.kesD[0][t2], t: t2, pk: hot}
 		sig, _ = o.Sign(bodyCbor)
 		reenc = false
+	case "kesSigLen":
+		reenc = false
 	}
+	g8SizeTamper(kind, &b, &sig)
 	if reenc {
 		bodyCbor, err = c40Serialize(tpraos, &b)
 		if err != nil {
@@ -228,7 +231,7 @@ func g8RunC40Block(f []string) string {
 	}
 	blkD, err := ledger.NewBlockFromCbor(blockType, blk, cfgSkip)
 	if err != nil {
-		return fmt.Sprintf("lead=1 dec=%s vb=0:decode(%s)", dec, err.Error())
+		return fmt.Sprintf("lead=1 dec=%s vb=0:decode", dec)
 	}
 	okv, _, _, _, verr := ledger.VerifyBlock(blkD, eta0, spk, cfg)
 	vb := "1"
@@ -271,7 +274,7 @@ func g8GenC40Block(r *Rand, emit func(string), useed string) {
 	switch r.Intn(6) {
 	case 0, 1:
 		tam = c40Tampers[r.Intn(len(c40Tampers))]
-		if mode == "c" && (tam == "nonceProof" || tam == "nonceOut") {
+		if mode == "c" && g8TpraosOnly(tam) {
 			tam = "bodyHash"
 		}
 	case 2:
